@@ -25,6 +25,14 @@ Sub-checks
     Weaker readings: nothing is asserted about spaces that replace a cut double-width character (layout
     ``(n, offs)`` segments, window edges of clipped lines) nor about zero-width characters at the edge of a clip
     window; where the displayed geometry differs from the layout (C03's subject) the column is skipped and counted.
+``set_text_short`` and the "then" steps of ``markup``  (clause a for the markup a widget is *given later*)
+    The same Text widget is given further markups with ``set_text()`` and looked at after each one exactly as after
+    construction (same oracle, expectation from the JSON tree of that step).  A step is either a newly built markup
+    object or -- what an application that keeps its status-line / menu markup around does -- *the same object that
+    was handed over before, edited in place* (``_morph``: the list stays the same list, items are replaced,
+    deleted, inserted; lists nested at the same position, directly or inside a tag tuple, are edited in place in
+    turn) and passed again.  Nothing is asserted between the caller's edit and the set_text() call (the docs are
+    silent on whether the widget sees the edit before it is told).
 ``clip`` / ``clip_short``  (clause a, "clipping ... never shift[s] an attribute onto a neighbouring character")
     The same markup cases, but the rendered Text is looked at through a *view that clips it*: (1) ``ops``: a
     history of ``pad_trim_left_right`` / ``pad_trim_top_bottom`` (negative = trim, positive = pad, both documented) /
@@ -71,7 +79,11 @@ Sub-checks
       * depth 88 and an 'hN' with N > 15 in the high-colour strings: urwid falls back to the 16-colour strings
         ("hX where X > 15 are different in 88/256 color"); for 16 <= N <= 87 both the fallback and colour N are
         accepted, for N > 87 only the fallback;
-      * blank cells: only the background (and underline/reverse) are compared (a terminal shows nothing else).
+      * blank cells: only the background (and underline/reverse) are compared (a terminal shows nothing else);
+      * the empty string is a spelling of 'default' in every slot ("If the color is not given then 'default' will
+        be assumed", "An empty string will be treated the same as 'default'"); only ``None`` in the mono / high
+        slots means "no settings" / "use the basic value".  A late ``register_palette`` may be made with the *same
+        list object* as the first one, edited in place ("late_same").
 """
 from __future__ import annotations
 
@@ -102,6 +114,11 @@ RULE = (
     "window [left, left+cols) of the rendered Text through TextCanvas.content and as the rectangle covered by an "
     "Overlay's top widget (row 0, row 1), every pair (left, right) in -(width-1)..1 that leaves a column for "
     "CompositeCanvas.pad_trim_left_right, and Padding(width='clip', align left/right) at every width 1..natural+1. "
+    "set_text_short: exhaustive strings of length <= 3 (thorough 4) over the same letters, per-character tags (and "
+    "every other character untagged), Text built from the list, then EVERY single in-place edit of that same list "
+    "object (item i retagged / untagged / its text replaced / deleted, an item inserted at every position, the tags "
+    "moved on by one item, the items rotated) and set_text(the same object); the edited list at top level, inside "
+    "a tag tuple and inside an outer list; width natural+2 or 2, wrap / align / str-bytes rotating. "
     "markup / clip / maps / sgr: Hypothesis draws a byte tape that a deterministic "
     "builder turns into the JSON case. clip: a markup case (as below, width 1..24) seen through one of: 1-4 ops "
     "(pad_trim_left_right / pad_trim_top_bottom with each side trimmed by up to 9 or padded by up to 2, taken modulo "
@@ -109,14 +126,21 @@ RULE = (
     "Overlay rectangle with optional AttrMap around the bottom widget, or Padding clip at 1..12 columns. markup: nested markup (lists/tuples to depth 5, 1-5 top-level items, text "
     "pieces of 0-6 characters from vlib.gen_text alphabets incl. double-width, combining, DEC line drawing, empty "
     "strings and empty lists; attributes from a pool of str, int, tuple, None, AttrSpec) x width 1..24 x wrap x "
-    "align x str/bytes x 3 encodings. maps: trees (Text leaves; Pile/Columns to depth 2; chains of 0-4 "
+    "align x str/bytes x 3 encodings; half of the cases continue with 1-3 set_text() steps on the same widget, each "
+    "markup an edit of the previous one (item inserted / deleted / swapped, tags moved on, tag changed / removed, "
+    "recursively) or a new random markup, handed over as a new object or (2 of 3) as the previously given object "
+    "edited in place. maps: trees (Text leaves; Pile/Columns to depth 2; chains of 0-4 "
     "AttrMap/AttrWrap with dict or single-attribute maps, {None: x} entries, missing keys, focus maps incl. {}), "
     "focus on/off, followed by 0-4 canvas-level fill_attr/fill_attr_apply steps. sgr_sweep: exhaustive 17x17 "
     "default/basic foreground x background pairs x depths 16,88,256,2**24 x bright_is_bold x 8 rotating setting "
     "subsets (all 64 subsets on 'default' and in the mono slot at depth 1), all h0..h255 as foreground and as "
     "background at depths 88 (N<88), 256, 2**24, all 4096 '#rgb' (every 5th in quick) at 88, 256 and 2**24, hN "
-    "resolved via the palette and as AttrSpec cells. sgr: palettes (0-5 entries of all tuple forms, aliases, "
-    "re-registration, settings before or after the colour, late registration) x pre/post set_terminal_properties "
+    "resolved via the palette and as AttrSpec cells; all 900 combinations of the spellings of a 6-field entry's slots "
+    "(foreground '', 'default', colour, settings, both; background '', 'default', colour; mono None, '', setting; "
+    "foreground_high None, '', 'default', colour, setting; background_high None, '', 'default', colour) at all 5 "
+    "depths. sgr: palettes (0-5 entries of all tuple forms, aliases, "
+    "re-registration, settings before or after the colour, '' as well as 'default' in every slot, late registration "
+    "with a new list or with the first list object edited in place) x pre/post set_terminal_properties "
     "x up to 2 further depth switches with a redraw each, 1-6 columns x 1-2 rows of cells naming entries, aliases, "
     "undefined names, None or AttrSpec objects, glyph or blank. Non-trivial: markup = a multi-byte character in a "
     "text that has >= 2 attribute runs and a line wider than the width; clip = a double-width character in a text "
@@ -136,6 +160,11 @@ ASSUMPTIONS = [
     "empty strings and empty lists are text markup (the grammar '[markup, ...] joined together' with zero items; "
     "/repo HEAD contains the fix that makes them contribute nothing)",
     "attribute names are str, int, tuple, None or AttrSpec; no two distinct generated names compare equal",
+    "set_text() histories: the caller may keep the markup list it handed over, edit it in place and pass the same "
+    "object again (urwid's docs put no freshness requirement on the argument); the widget is only looked at after "
+    "set_text() has been called with the edited object, never between the edit and the call",
+    "palette strings: '' is accepted wherever 'default' is (AttrSpec docs: colour not given -> 'default'; 'An empty "
+    "string will be treated the same as 'default''); a whole-string '' only, never an empty part next to a colour",
     "clip: pad_trim_left_right / pad_trim_top_bottom are only called with amounts that leave >= 1 column and >= 1 "
     "row; TextCanvas.content() only with a window inside the canvas; the Overlay's top widget is placed with "
     "('fixed left', n) / ('fixed top', n) and a given width / height that fit (no rounding involved); Padding clip "
@@ -295,13 +324,15 @@ class Source:
 _src_memo: dict = {}
 
 
-def source_of(case, mode=None):
-    key = (case["enc"], bool(case["bytes"]), repr(case["markup"]))
+def source_of(case, mode=None, markup=None):
+    if markup is None:
+        markup = case["markup"]
+    key = (case["enc"], bool(case["bytes"]), repr(markup))
     hit = _src_memo.get(key)
     if hit is None:
         if len(_src_memo) > 32:
             _src_memo.clear()
-        hit = _src_memo[key] = Source(case["markup"], case["enc"], bool(case["bytes"]), W.mode_of(case["enc"]))
+        hit = _src_memo[key] = Source(markup, case["enc"], bool(case["bytes"]), W.mode_of(case["enc"]))
     return hit
 
 
@@ -400,27 +431,79 @@ def expected_line(src: Source, segs, mode, what, y):
 
 
 class _What:
-    __slots__ = ("case", "text")
+    __slots__ = ("case", "text", "markup", "note")
 
-    def __init__(self, case, text):
-        self.case, self.text = case, text
+    def __init__(self, case, text, markup=None, note=""):
+        self.case, self.text, self.note = case, text, note
+        self.markup = case["markup"] if markup is None else markup
 
     def __str__(self):
         c = self.case
-        return f"[{c['enc']} {c['wrap']}/{c['align']} width {c['width']}] {self.text!r} markup {c['markup']!r}"
+        return (f"[{c['enc']} {c['wrap']}/{c['align']} width {c['width']}{self.note}] {self.text!r} "
+                f"markup {self.markup!r}")
+
+
+def _same_attr(a, b):
+    return a is b or (type(a) is type(b) and a == b)
+
+
+def _morph(old, new):
+    """Edit the (live, urwid form) markup object `old` *in place* so that it becomes equal to `new`, as far as its
+    structure allows: a list stays the same list object (items edited, deleted, appended; lists nested at the same
+    position -- directly or inside a tag tuple with the same attribute -- are edited in place in turn); strings and
+    tuples are immutable and are replaced.  -> the object to use (``old`` itself whenever it could be kept)."""
+    if isinstance(old, list) and isinstance(new, list):
+        n = min(len(old), len(new))
+        for i in range(n):
+            old[i] = _morph(old[i], new[i])
+        old[n:] = new[n:]
+        return old
+    if isinstance(old, tuple) and isinstance(new, tuple) and _same_attr(old[0], new[0]):
+        if _morph(old[1], new[1]) is old[1]:  # kept: edited in place (a list, or a tuple around one) or identical
+            return old
+    return new
 
 
 def check_markup(case):
-    """case: {"enc", "bytes", "markup", "width", "wrap", "align"}"""
+    """case: {"enc", "bytes", "markup", "width", "wrap", "align"[, "then": [["same"|"fresh", markup], ...]]}
+    "then": further markups given to the *same* Text widget with set_text(), each looked at like the first one.
+    "fresh": a newly built markup object; "same": the markup object handed over before, edited in place by the
+    caller (``_morph``) and passed again."""
     enc, is_bytes = case["enc"], bool(case["bytes"])
     width, wrap, align = case["width"], case["wrap"], case["align"]
     if enc not in ENCODINGS or wrap not in WRAPS or align not in ALIGNS or not isinstance(width, int) or width < 1:
         raise Discard()
+    then = case.get("then") or []
+    if not isinstance(then, list) or any(
+        not (isinstance(st_, list) and len(st_) == 2 and st_[0] in ("same", "fresh")) for st_ in then
+    ):
+        raise Discard()
     mode = _set_encoding(enc)
     src = source_of(case)
-    what = _What(case, src.text)
+    later = [source_of(case, markup=node) for _, node in then]  # soundness preconditions first (may Discard)
     conv = (lambda s: s.encode(enc)) if is_bytes else (lambda s: s)
-    w = urwid.Text(build_markup(case["markup"], conv), align=align, wrap=wrap)
+    live = build_markup(case["markup"], conv)
+    w = urwid.Text(live, align=align, wrap=wrap)
+    _check_text_widget(w, src, case, _What(case, src.text), mode)
+    for k, ((how, node), src_k) in enumerate(zip(then, later)):
+        new = build_markup(node, conv)
+        if how == "same":
+            kept = _morph(live, new)
+            if kept is live:
+                _stat("set_text:same-object-edited-in-place")
+            else:
+                _stat("set_text:top-level-object-replaced")
+            live = kept
+        else:
+            live = new
+            _stat("set_text:fresh-object")
+        w.set_text(live)
+        note = f"; set_text() #{k + 1} ({'the same object, edited in place' if how == 'same' else 'a new object'})"
+        _check_text_widget(w, src_k, case, _What(case, src_k.text, node, note), mode)
+
+
+def _check_text_widget(w, src, case, what, mode):
+    width = case["width"]
     got_text, got_attr = w.get_text()
     if got_text != src.text and not (len(got_text) == 0 and len(src.text) == 0):
         raise Violation("markup-text", f"{what}: Text.get_text() gives {got_text!r}")
@@ -1312,7 +1395,8 @@ def check_sgr(case):
             scr.set_terminal_properties(colors=depth, bright_is_bold=bib)
             states.append((depth, bib))
         _register_model(model, case["palette"])
-        scr.register_palette([_entry_args(e) for e in case["palette"]])
+        pal_obj = [_entry_args(e) for e in case["palette"]]
+        scr.register_palette(pal_obj)
         if case.get("post") is not None:
             depth, bib = case["post"]
             scr.set_terminal_properties(colors=depth, bright_is_bold=bib)
@@ -1321,7 +1405,12 @@ def check_sgr(case):
         started = True
         if case.get("late"):
             _register_model(model, case["late"])
-            scr.register_palette([_entry_args(e) for e in case["late"]])
+            late_obj = [_entry_args(e) for e in case["late"]]
+            if case.get("late_same"):
+                # the application keeps its palette list, edits it in place and registers the same object again
+                pal_obj[:] = late_obj
+                late_obj = pal_obj
+            scr.register_palette(late_obj)
         vt = VT(cols, rows, encoding=enc)
         steps = [None, *case.get("more", [])]
         for si, step in enumerate(steps):
@@ -1378,6 +1467,7 @@ def check_sgr(case):
 
 SUBS = {
     "markup_short": check_markup,
+    "set_text_short": check_markup,
     "markup": check_markup,
     "clip_short": check_clip,
     "clip": check_clip,
@@ -1426,6 +1516,58 @@ def short_cases(ctx, maxlen, full):
                             for align in ALIGNS:
                                 yield {"enc": enc, "bytes": is_bytes, "markup": markup, "width": width,
                                        "wrap": wrap, "align": align}
+
+
+def set_text_cases(ctx, maxlen, full):
+    """every single edit of a short per-character-tagged markup list, made in place on the object the Text was
+    given and passed to set_text() again"""
+    for enc in ENCODINGS:
+        alpha = SHORT_ALPHABETS[enc] if full else SHORT_ALPHABETS[enc][:5]
+        other = {ch: alpha[(k + 1) % len(alpha)] for k, ch in enumerate(alpha)}
+        idx = 0
+        for n in range(1, maxlen + 1):
+            for tup in itertools.product(alpha, repeat=n):
+                idx += 1
+                if not ctx.mine(idx):
+                    continue
+                items = [["T", SHORT_ATTRS[k % 4], ch] for k, ch in enumerate(tup)]
+                half = [(it if k % 2 == 0 else it[2]) for k, it in enumerate(items)]
+                edits = []  # (first markup, markup after the edit)
+                for base in ((items, half) if n >= 2 else (items,)):
+                    for i in range(n):
+                        it = base[i]
+                        txt = it[2] if isinstance(it, list) else it
+                        edits.append((base, base[:i] + [["T", "E", txt]] + base[i + 1:]))         # (re)tagged
+                        if isinstance(it, list):
+                            edits.append((base, base[:i] + [txt] + base[i + 1:]))                   # tag removed
+                        rep = ["T", it[1], other[txt]] if isinstance(it, list) else other[txt]
+                        edits.append((base, base[:i] + [rep] + base[i + 1:]))                       # text replaced
+                        edits.append((base, base[:i] + base[i + 1:]))                               # item deleted
+                    for i in range(n + 1):
+                        edits.append((base, base[:i] + [["T", "E", alpha[0]]] + base[i:]))          # item inserted
+                    if n >= 2:
+                        tags = [it[1] if isinstance(it, list) else None for it in base]
+                        tags = tags[-1:] + tags[:-1]
+                        txts = [it[2] if isinstance(it, list) else it for it in base]
+                        edits.append((base, [x if tg is None else ["T", tg, x] for x, tg in zip(txts, tags)]))  # tags move
+                        edits.append((base, base[1:] + base[:1]))                                   # items move
+                natural = 0
+                for part in "".join(tup).split("\n"):
+                    natural = max(natural, sum(max(W.char_width(ch), 0) for ch in part))
+                e = 0
+                for first, after in edits:
+                    for nest in (0, 1, 2):
+                        # 0: the list itself; 1: the list inside a tag tuple; 2: the list inside an outer list
+                        if nest == 0:
+                            m0, m1 = ["L", *first], ["L", *after]
+                        elif nest == 1:
+                            m0, m1 = ["T", "D", ["L", *first]], ["T", "D", ["L", *after]]
+                        else:
+                            m0, m1 = ["L", "a", ["L", *first]], ["L", "a", ["L", *after]]
+                        e += 1
+                        width = (natural + 2) if e % 3 else 2
+                        yield {"enc": enc, "bytes": bool(e % 2), "markup": m0, "width": width,
+                               "wrap": WRAPS[e % 4], "align": ALIGNS[e % 3], "then": [["same", m1]]}
 
 
 def clip_short_cases(ctx, maxlen, full):
@@ -1540,6 +1682,8 @@ def markup_classes(case):
         out.append("markup:empty-string-piece")
     d = markup_depth(case["markup"])
     out.append(f"markup:depth:{min(d, 4)}")
+    for how, _ in case.get("then") or []:
+        out.append(f"markup:set_text:{how}")
     return out
 
 
@@ -1602,17 +1746,59 @@ def _gen_markup(t, alpha, max_items=5):
     return ["L", *(_gen_item(t, alpha, 1) for _ in range(1 + t.next(max_items)))]
 
 
+def _edit_markup(t, node, alpha):
+    """one edit an application makes to a markup it keeps: -> new JSON tree (`node` itself is not modified)"""
+    if isinstance(node, str):
+        return _gen_item(t, alpha, 2)
+    if node[0] == "T":
+        k = t.next(4)
+        if k == 0:
+            return ["T", t.pick(ATTR_POOL), node[2]]  # other tag, same content
+        if k == 1:
+            return node[2]  # tag removed
+        return ["T", node[1], _edit_markup(t, node[2], alpha)]
+    items = list(node[1:])
+    k = t.next(7)
+    if not items or k == 0:
+        items.insert(t.next(len(items) + 1), _gen_item(t, alpha, 2))
+    elif k == 1:
+        del items[t.next(len(items))]
+    elif k == 2:
+        i, j = t.next(len(items)), t.next(len(items))
+        items[i], items[j] = items[j], items[i]
+    elif k == 3:
+        # the tags move on by one item (a highlight walking through a menu line), the texts stay
+        tags = [it[1] if isinstance(it, list) and it[0] == "T" else Ellipsis for it in items]
+        tags = tags[-1:] + tags[:-1]
+        items = [(it[2] if isinstance(it, list) and it[0] == "T" else it) for it in items]
+        items = [it if tg is Ellipsis else ["T", tg, it] for it, tg in zip(items, tags)]
+    else:
+        i = t.next(len(items))
+        items[i] = _edit_markup(t, items[i], alpha)
+    return ["L", *items]
+
+
 def _build_markup_case(ints):
     t = _Tape(ints)
     enc, is_bytes = t.pick(KINDS)
     wrap, align = t.pick(WRAPS), t.pick(ALIGNS)
     width = 1 + t.next(8) if t.next(4) else 1 + t.next(24)
-    return {"enc": enc, "bytes": is_bytes, "markup": _gen_markup(t, _alphabet(enc, is_bytes)), "width": width,
+    nthen = t.pick([0, 0, 0, 1, 1, 2, 3, 0])
+    alpha = _alphabet(enc, is_bytes)
+    case = {"enc": enc, "bytes": is_bytes, "markup": _gen_markup(t, alpha), "width": width,
             "wrap": wrap, "align": align}
+    if nthen:
+        then, cur = [], case["markup"]
+        for _ in range(nthen):
+            how = t.pick(["same", "same", "fresh"])
+            cur = _gen_markup(t, alpha, 3) if t.next(4) == 0 else _edit_markup(t, cur, alpha)
+            then.append([how, cur])
+        case["then"] = then
+    return case
 
 
 def _markup_case_strategy():
-    return _tape(70).map(_build_markup_case)
+    return _tape(100).map(_build_markup_case)
 
 
 def _gen_pairs(t):
@@ -1765,19 +1951,26 @@ def _gen_settings(t):
 def _gen_fg(t, colours):
     colour = t.pick(colours)
     sett = _gen_settings(t)
-    return _fg_string(colour, sett, t.next(3) != 2)
+    first = t.next(3) != 2
+    if colour is None and not sett:
+        # "If the color is not given then 'default' will be assumed": the empty string is the other spelling of
+        # 'default' (falsy but valid -- not the same as None in the *_high slots, which means "use the basic value")
+        return t.pick(_DEFAULT_SPELLINGS)
+    return _fg_string(colour, sett, first)
 
 
+_DEFAULT_SPELLINGS = ["default", ""]
 _BASIC_FG = [None, "default", *BASIC]
 _BASIC_BG = ["default", "", *BASIC]
-_HIGH = HIGH_SAMPLE + list(BASIC[:4]) + ["default"]
+_HIGH = HIGH_SAMPLE + list(BASIC[:4]) + ["default", None]  # None: no colour part (settings only, or '' / 'default')
+_HIGH_BG = HIGH_SAMPLE + list(BASIC[:4]) + ["default", ""]
 
 
-def _gen_high(t):
+def _gen_high(t, pool=_HIGH):
     k = t.next(4)
     if k == 0:
         return f"h{t.next(256)}"
-    return t.pick(_HIGH)
+    return t.pick(pool)
 
 
 def _gen_palette(t, max_entries):
@@ -1787,14 +1980,16 @@ def _gen_palette(t, max_entries):
         arity = t.pick([6, 3, 4, 6])
         fg = _gen_fg(t, _BASIC_FG)
         bg = t.pick(_BASIC_BG)
-        mono = None if t.next(2) == 0 else (",".join(_gen_settings(t)) or "default")
+        mono = None if t.next(2) == 0 else (",".join(_gen_settings(t)) or t.pick(_DEFAULT_SPELLINGS))
         fgh = bgh = None
         if arity == 6:
             if t.next(4):
                 colour, sett = _gen_high(t), _gen_settings(t)
                 fgh = _fg_string(colour, sett, t.next(3) != 2)
+                if colour is None and not sett:
+                    fgh = t.pick(_DEFAULT_SPELLINGS)
             if t.next(4):
-                bgh = _gen_high(t)
+                bgh = _gen_high(t, _HIGH_BG)
         out.append(["e", name, arity, fg, bg, mono, fgh, bgh])
         defined.append(name)
         if t.next(4) == 0:
@@ -1809,9 +2004,9 @@ def _gen_props(t):
 
 _SPEC_CHOICES = {
     16: (_BASIC_FG, _BASIC_BG),
-    88: (["h9", "h80", "#f00", "#8cf", "light blue", None], ["default", "h17", "#008", "dark red"]),
-    256: (["h9", "h100", "#f00", "#fa8", "g50", "light blue", None], ["default", "h17", "#068", "dark red"]),
-    T24: (["#123456", "#f00", "h100", "white", None], ["default", "#ff8000", "h17", "light gray"]),
+    88: (["h9", "h80", "#f00", "#8cf", "light blue", None], ["default", "h17", "#008", "dark red", ""]),
+    256: (["h9", "h100", "#f00", "#fa8", "g50", "light blue", None], ["default", "h17", "#068", "dark red", ""]),
+    T24: (["#123456", "#f00", "h100", "white", None], ["default", "#ff8000", "h17", "light gray", ""]),
 }
 
 
@@ -1835,13 +2030,14 @@ def _build_sgr_case(ints):
     palette = _gen_palette(t, 5)
     post = _gen_props(t) if t.next(3) else None
     late = _gen_palette(t, 2) if t.next(3) == 0 else []
+    late_same = bool(late) and t.next(2) == 1
     more = [_gen_props(t) for _ in range(t.pick([0, 0, 1, 2]))]
     cols = 1 + t.next(6)
     rows = 1 + t.next(2)
     cells = [_gen_cell(t) for _ in range(cols * rows)]
     glyphs = "".join(t.pick("xxxy #") for _ in range(cols * rows))
-    return {"enc": enc, "pre": pre, "palette": palette, "post": post, "late": late, "more": more, "cols": cols,
-            "cells": cells, "glyphs": glyphs}
+    return {"enc": enc, "pre": pre, "palette": palette, "post": post, "late": late, "late_same": late_same,
+            "more": more, "cols": cols, "cells": cells, "glyphs": glyphs}
 
 
 def _sgr_case_strategy():
@@ -1930,6 +2126,24 @@ def sweep_cases(ctx):
                             cells.append(["spec", fgh, bgh, depth])
                     yield {"enc": "utf-8", "pre": None, "palette": pal, "post": [depth, bool(base & 16)], "late": [],
                            "more": [], "cols": len(cells), "cells": cells, "glyphs": "x" * len(cells)}
+    # every slot of a 6-field entry in each of its spellings of "nothing given" -- None (mono / high slots: "same as
+    # 'default'" / "use the basic value"), the empty string and 'default' (both: the terminal's default) -- against
+    # a value that differs from the default, in every combination of the five slots, at every depth
+    combos = list(itertools.product(
+        ["", "default", "yellow", "underline", "dark green,bold"],      # foreground
+        ["", "default", "dark red"],                                     # background
+        [None, "", "bold"],                                              # mono
+        [None, "", "default", "#f00", "strikethrough"],                  # foreground_high
+        [None, "", "default", "#006"],                                   # background_high
+    ))
+    for depth in DEPTHS:
+        for base in range(0, len(combos), 16):
+            pal, cells = [], []
+            for n, (fg, bg, mono, fgh, bgh) in enumerate(combos[base:base + 16]):
+                pal.append(["e", f"v{base + n}", 6, fg, bg, mono, fgh, bgh])
+                cells.append(f"v{base + n}")
+            yield {"enc": "utf-8", "pre": None, "palette": pal, "post": [depth, bool(base & 16)], "late": [],
+                   "more": [], "cols": len(cells), "cells": cells, "glyphs": "x" * len(cells)}
     # '#rgb' cube shortcuts
     step = 1 if full else 5
     vals = list(range(0, 4096, step))
@@ -1957,6 +2171,14 @@ def shard(ctx):
         ctx.sweep("markup_short", short_cases(ctx, maxlen, full), nontrivial=markup_nontrivial, classify=None,
                   exhaustive_name=f"per-character tags: strings of length <= {maxlen} over {6 if full else 5} letters x "
                                   f"width 1..{6 if full else 4} x wrap x align x str/bytes x 3 encodings",
+                  stride=False)
+    if ctx.failure is None:
+        sl = ctx.scale(3, 4)
+        ctx.sweep("set_text_short", set_text_cases(ctx, sl, full), nontrivial=None, classify=None,
+                  exhaustive_name=f"set_text() with the same list object after every single in-place edit (item "
+                                  f"retagged / untagged / text replaced / deleted / inserted, tags or items moved on) "
+                                  f"of per-character-tagged strings of length <= {sl} over {6 if full else 5} letters, "
+                                  f"list at top level / inside a tag tuple / inside an outer list, 3 encodings",
                   stride=False)
     if ctx.failure is None:
         cl = 3
